@@ -35,6 +35,9 @@ CONFIGS = [
     ('CFGrid1D', {'leading': ('lon', 'lat')}, ['face']),
     ('CFGrid2D', {'first_var': ('leading', ('i', 'j'), {})}, ['face']),
     ('ShocStandard', {'leading': True}, ['face', 'left', 'back', 'node']),
+    # the general Arakawa C convention with its coordinate names given as a mapping in another order than face, left, back, node
+    ('ArakawaC', {'coordinate_order': ('face', 'node', 'back', 'left')}, ['face', 'left', 'back', 'node']),
+    ('ArakawaC', {'coordinate_order': ('node', 'left', 'face', 'back')}, ['face', 'left', 'back', 'node']),
 ]
 
 
